@@ -103,6 +103,20 @@ func digEnumSwitch(what string, sw *ast.SwitchStmt, envs map[string]*constEnv,
 	return pairs, defaultStmts
 }
 
+// digEnumSwitchStmts is digEnumSwitch that also hands back the statements of the
+// default clause.
+func digEnumSwitchStmts(what string, sw *ast.SwitchStmt, envs map[string]*constEnv,
+	dflt string) ([][2]string, []ast.Stmt) {
+
+	pairs, _ := digEnumSwitch(what, sw, envs, dflt)
+	for _, c := range sw.Body.List {
+		if cc := c.(*ast.CaseClause); cc.List == nil {
+			return pairs, cc.Body
+		}
+	}
+	return pairs, nil
+}
+
 func digFindSwitchByTag(body ast.Node, tag string) *ast.SwitchStmt {
 	var res *ast.SwitchStmt
 	ast.Inspect(body, func(n ast.Node) bool {
@@ -136,6 +150,251 @@ func digFuncBodyStrings(fd *ast.FuncDecl) []string {
 		res = append(res, digNodeString(s))
 	}
 	return res
+}
+
+// ---- SubmitOrder: canonical value expressions ---------------------------------
+//
+// Values of the composite literals are printed with single-definition locals
+// replaced by their defining expression (`kit := o.Details()`; the variable of
+// the type switch is always called castOrder), and enum conversions — a local
+// assigned in the cases of a switch, or a call of a same-package helper that
+// switches over its parameter — printed as enum(<converted expression>) with the
+// value table recorded. Names of locals and helpers do not matter.
+
+type digEnum struct {
+	pairs          [][2]string
+	defaultIsError bool
+}
+
+type digSubmitCtx struct {
+	fn      *ast.FuncDecl
+	files   []*ast.File
+	envs    map[string]*constEnv
+	defs    map[string]ast.Expr        // inlinable locals
+	mutable map[string]bool            // locals with more than one definition / re-assignment
+	alias   map[string]string          // renamed identifiers
+	swOf    map[string]*ast.SwitchStmt // mutable local -> the switch that assigns it
+	enums   map[string]*digEnum
+	second  map[string]string // local -> name of the 2nd value defined with it (ok / err)
+}
+
+func digNewSubmitCtx(fn *ast.FuncDecl, files []*ast.File, envs map[string]*constEnv) *digSubmitCtx {
+	sx := &digSubmitCtx{fn: fn, files: files, envs: envs, defs: map[string]ast.Expr{},
+		mutable: map[string]bool{}, alias: map[string]string{}, swOf: map[string]*ast.SwitchStmt{},
+		enums: map[string]*digEnum{}, second: map[string]string{}}
+	count := map[string]int{}
+	define := func(name string, rhs ast.Expr) {
+		count[name]++
+		sx.defs[name] = rhs
+	}
+	var walk func(n ast.Node, sw *ast.SwitchStmt)
+	walk = func(n ast.Node, sw *ast.SwitchStmt) {
+		ast.Inspect(n, func(m ast.Node) bool {
+			switch x := m.(type) {
+			case *ast.SwitchStmt:
+				if x != sw {
+					if x.Init != nil {
+						walk(x.Init, sw)
+					}
+					walk(x.Body, x)
+					return false
+				}
+			case *ast.TypeSwitchStmt:
+				if as, ok := x.Assign.(*ast.AssignStmt); ok && len(as.Lhs) == 1 {
+					if id, ok := as.Lhs[0].(*ast.Ident); ok {
+						sx.alias[id.Name] = "castOrder"
+					}
+				}
+			case *ast.AssignStmt:
+				if x.Tok == token.DEFINE && len(x.Rhs) == 1 {
+					if id, ok := x.Lhs[0].(*ast.Ident); ok {
+						define(id.Name, x.Rhs[0])
+						if len(x.Lhs) == 2 {
+							if id2, ok := x.Lhs[1].(*ast.Ident); ok {
+								sx.second[id.Name] = id2.Name
+							}
+						}
+					}
+				} else if x.Tok == token.ASSIGN {
+					for _, l := range x.Lhs {
+						if id, ok := l.(*ast.Ident); ok {
+							sx.mutable[id.Name] = true
+							if sw != nil && sx.swOf[id.Name] == nil {
+								sx.swOf[id.Name] = sw
+							} else if sx.swOf[id.Name] != sw {
+								sx.swOf[id.Name] = nil
+								count[id.Name] += 2
+							}
+						}
+					}
+				}
+			case *ast.ValueSpec:
+				for k, n := range x.Names {
+					if k < len(x.Values) {
+						define(n.Name, x.Values[k])
+					}
+				}
+			}
+			return true
+		})
+	}
+	walk(fn.Body, nil)
+	for name, rhs := range sx.defs {
+		_, isPtrLit := rhs.(*ast.UnaryExpr)
+		call, isCall := rhs.(*ast.CallExpr)
+		isMake := isCall && (exprString(call.Fun) == "make" || exprString(call.Fun) == "append")
+		if count[name] != 1 || sx.mutable[name] || isPtrLit || isMake {
+			delete(sx.defs, name)
+		}
+	}
+	return sx
+}
+
+// helperEnum: f(arg) where f is a function of this package whose body switches
+// over its (single) parameter.
+func (sx *digSubmitCtx) helperEnum(call *ast.CallExpr, local string) (string, bool) {
+	id, ok := call.Fun.(*ast.Ident)
+	if !ok || len(call.Args) != 1 {
+		return "", false
+	}
+	h := findFunc(sx.files, id.Name)
+	if h == nil || h.Body == nil || h.Type.Params == nil || len(h.Type.Params.List) != 1 ||
+		len(h.Type.Params.List[0].Names) != 1 {
+
+		return "", false
+	}
+	sw := digFindSwitchByTag(h.Body, h.Type.Params.List[0].Names[0].Name)
+	if sw == nil {
+		return "", false
+	}
+	tag := sx.print(call.Args[0])
+	pairs, dflt := digEnumSwitchStmts("SubmitOrder helper "+id.Name, sw, sx.envs, "order")
+	e := &digEnum{pairs: pairs}
+	// is an unmapped value an error for SubmitOrder?
+	nres := 0
+	if h.Type.Results != nil {
+		for _, f := range h.Type.Results.List {
+			n := len(f.Names)
+			if n == 0 {
+				n = 1
+			}
+			nres += n
+		}
+	}
+	if nres == 2 && len(dflt) > 0 {
+		if r, ok := dflt[len(dflt)-1].(*ast.ReturnStmt); ok && len(r.Results) == 2 {
+			last := digNodeString(r.Results[1])
+			sec := sx.second[local]
+			switch {
+			case last == "false" && sec != "":
+				// caller must bail out on !ok
+				ast.Inspect(sx.fn.Body, func(n ast.Node) bool {
+					if is, ok := n.(*ast.IfStmt); ok && digNodeString(is.Cond) == "!"+sec &&
+						len(is.Body.List) > 0 {
+
+						if rr, ok := is.Body.List[len(is.Body.List)-1].(*ast.ReturnStmt); ok &&
+							len(rr.Results) == 1 && !digIsNil(rr.Results[0]) {
+
+							e.defaultIsError = true
+						}
+					}
+					return true
+				})
+			case last != "nil" && last != "false" && last != "true":
+				// (value, error) with a non-nil error: the caller returns it
+				e.defaultIsError = true
+			}
+		}
+	}
+	sx.enums[tag] = e
+	return "enum(" + tag + ")", true
+}
+
+// canon prints the value of a literal field canonically.
+func (sx *digSubmitCtx) canon(e ast.Expr) string {
+	if id, ok := e.(*ast.Ident); ok {
+		if sw := sx.swOf[id.Name]; sw != nil && sx.mutable[id.Name] && sw.Tag != nil {
+			tag := sx.print(sw.Tag)
+			pairs, dflt := digEnumSwitchStmts("SubmitOrder switch on "+tag, sw, sx.envs, "order")
+			en := &digEnum{pairs: pairs}
+			if len(dflt) > 0 {
+				if r, ok := dflt[len(dflt)-1].(*ast.ReturnStmt); ok && len(r.Results) == 1 &&
+					!digIsNil(r.Results[0]) {
+
+					en.defaultIsError = true
+				}
+			}
+			sx.enums[tag] = en
+			return "enum(" + tag + ")"
+		}
+		if d, ok := sx.defs[id.Name]; ok {
+			if call, ok := d.(*ast.CallExpr); ok {
+				if s, ok := sx.helperEnum(call, id.Name); ok {
+					return s
+				}
+			}
+		}
+	}
+	if call, ok := e.(*ast.CallExpr); ok {
+		if s, ok := sx.helperEnum(call, ""); ok {
+			return s
+		}
+	}
+	return sx.print(e)
+}
+
+// print renders an expression with inlinable locals replaced by their
+// definitions.
+func (sx *digSubmitCtx) print(e ast.Expr) string {
+	return sx.printD(e, 0)
+}
+
+func (sx *digSubmitCtx) printD(e ast.Expr, d int) string {
+	p := func(x ast.Expr) string { return sx.printD(x, d) }
+	switch x := e.(type) {
+	case *ast.Ident:
+		if a, ok := sx.alias[x.Name]; ok {
+			return a
+		}
+		if def, ok := sx.defs[x.Name]; ok && d < 4 {
+			return sx.printD(def, d+1)
+		}
+		return x.Name
+	case *ast.SelectorExpr:
+		// package-qualified names are not locals
+		if id, ok := x.X.(*ast.Ident); ok {
+			if _, isLocal := sx.defs[id.Name]; !isLocal && sx.alias[id.Name] == "" {
+				return id.Name + "." + x.Sel.Name
+			}
+		}
+		return p(x.X) + "." + x.Sel.Name
+	case *ast.CallExpr:
+		var as []string
+		for _, a := range x.Args {
+			as = append(as, p(a))
+		}
+		return p(x.Fun) + "(" + strings.Join(as, ", ") + ")"
+	case *ast.SliceExpr:
+		lo, hi := "", ""
+		if x.Low != nil {
+			lo = p(x.Low)
+		}
+		if x.High != nil {
+			hi = p(x.High)
+		}
+		return p(x.X) + "[" + lo + ":" + hi + "]"
+	case *ast.IndexExpr:
+		return p(x.X) + "[" + p(x.Index) + "]"
+	case *ast.ParenExpr:
+		return "(" + p(x.X) + ")"
+	case *ast.StarExpr:
+		return "*" + p(x.X)
+	case *ast.UnaryExpr:
+		return x.Op.String() + p(x.X)
+	case *ast.BinaryExpr:
+		return p(x.X) + " " + x.Op.String() + " " + p(x.Y)
+	}
+	return digNodeString(e)
 }
 
 func digGenOrderDigestFacts() {
@@ -180,11 +439,10 @@ func digGenOrderDigestFacts() {
 		fail("auctioneer.Client.SubmitOrder not found")
 		return
 	}
+	sx := digNewSubmitCtx(so, afiles, envs)
 	lits := map[string][][2]string{}
-	var locals [][2]string
 	ast.Inspect(so.Body, func(n ast.Node) bool {
-		switch x := n.(type) {
-		case *ast.CompositeLit:
+		if x, ok := n.(*ast.CompositeLit); ok {
 			name := digNodeString(x.Type)
 			switch name {
 			case "auctioneerrpc.ServerOrder", "auctioneerrpc.ServerAsk", "auctioneerrpc.ServerBid":
@@ -198,19 +456,9 @@ func digGenOrderDigestFacts() {
 						fail("SubmitOrder: positional element in %s literal", name)
 						continue
 					}
-					kv = append(kv, [2]string{digNodeString(k.Key), digNodeString(k.Value)})
+					kv = append(kv, [2]string{digNodeString(k.Key), sx.canon(k.Value)})
 				}
 				lits[name] = kv
-			}
-		case *ast.AssignStmt:
-			if x.Tok == token.DEFINE && len(x.Rhs) == 1 {
-				var names []string
-				for _, l := range x.Lhs {
-					names = append(names, digNodeString(l))
-				}
-				if _, isLit := x.Rhs[0].(*ast.UnaryExpr); !isLit {
-					locals = append(locals, [2]string{strings.Join(names, ","), digNodeString(x.Rhs[0])})
-				}
 			}
 		}
 		return true
@@ -220,42 +468,33 @@ func digGenOrderDigestFacts() {
 			fail("SubmitOrder: composite literal %s not found", n)
 		}
 	}
-	// later plain assignments to fields of the literals (details.X = …) would
-	// bypass the literal mapping: list them
-	var fieldAssigns, varAssigns [][2]string
+	// later plain assignments to fields (details.X = …) bypass the literal
+	// mapping: list (field, target)
+	var fieldAssigns [][2]string
 	ast.Inspect(so.Body, func(n ast.Node) bool {
 		if as, ok := n.(*ast.AssignStmt); ok && as.Tok == token.ASSIGN && len(as.Lhs) == 1 {
-			if sel, ok := as.Lhs[0].(*ast.SelectorExpr); ok {
-				fieldAssigns = append(fieldAssigns, [2]string{digNodeString(sel), digNodeString(as.Rhs[0])})
+			lhs := as.Lhs[0]
+			if ix, ok := lhs.(*ast.IndexExpr); ok {
+				lhs = ix.X
 			}
-			// re-assignment of a local after its definition (a local that
-			// feeds a literal may be changed between definition and use)
-			if id, ok := as.Lhs[0].(*ast.Ident); ok {
-				varAssigns = append(varAssigns, [2]string{id.Name, digNodeString(as.Rhs[0])})
+			if sel, ok := lhs.(*ast.SelectorExpr); ok {
+				fieldAssigns = append(fieldAssigns, [2]string{sel.Sel.Name, digNodeString(sel.X)})
 			}
 		}
 		return true
 	})
-
-	ctSw := digFindSwitchByTag(so.Body, "o.Details().ChannelType")
-	atSw := digFindSwitchByTag(so.Body, "o.Details().AuctionType")
-	if ctSw == nil || atSw == nil {
-		fail("SubmitOrder: channel type / auction type switch not found")
-		return
+	enumTable := func(suffix string) ([][2]string, bool) {
+		for tag, e := range sx.enums {
+			if strings.HasSuffix(tag, suffix) {
+				return e.pairs, e.defaultIsError
+			}
+		}
+		fail("SubmitOrder: no enum mapping of %s found", suffix)
+		return nil, false
 	}
-	ctPairs, ctDefault := digEnumSwitch("SubmitOrder channel type", ctSw, envs, "order")
-	atPairs, atDefault := digEnumSwitch("SubmitOrder auction type", atSw, envs, "order")
-
-	mnt := findFunc(afiles, "MarshallNodeTier")
-	var ntPairs [][2]string
-	var ntDefault []string
-	if mnt == nil {
-		fail("auctioneer.MarshallNodeTier not found")
-	} else if sw := digFindSwitchByTag(mnt.Body, "nodeTier"); sw == nil {
-		fail("MarshallNodeTier: switch not found")
-	} else {
-		ntPairs, ntDefault = digEnumSwitch("MarshallNodeTier", sw, envs, "order")
-	}
+	ctPairs, ctDefErr := enumTable(".ChannelType")
+	atPairs, atDefErr := enumTable(".AuctionType")
+	ntPairs, ntDefErr := enumTable(".MinNodeTier")
 
 	// ---- order/rpc_parse.go: channel type switch of ParseRPCServerOrder (rpc -> order)
 	var pctPairs [][2]string
@@ -323,21 +562,17 @@ func digGenOrderDigestFacts() {
 	l.p("def submitServerOrder : List (String × String) := %s", digLeanStrPairs(lits["auctioneerrpc.ServerOrder"]))
 	l.p("def submitServerAsk : List (String × String) := %s", digLeanStrPairs(lits["auctioneerrpc.ServerAsk"]))
 	l.p("def submitServerBid : List (String × String) := %s", digLeanStrPairs(lits["auctioneerrpc.ServerBid"]))
-	l.p("/-- `name := expr` definitions inside SubmitOrder -/")
-	l.p("def submitLocals : List (String × String) := %s", digLeanStrPairs(locals))
-	l.p("/-- `x.f = expr` assignments inside SubmitOrder (fields set after the literals) -/")
+	l.p("/-- (field, target) of `target.field = …` / `target.field[i] = …` assignments inside SubmitOrder -/")
 	l.p("def submitFieldAssigns : List (String × String) := %s", digLeanStrPairs(fieldAssigns))
-	l.p("/-- `local = expr` re-assignments of locals inside SubmitOrder -/")
-	l.p("def submitVarAssigns : List (String × String) := %s", digLeanStrPairs(varAssigns))
-	l.p("/-- SubmitOrder: order.ChannelType value ↦ auctioneerrpc.OrderChannelType value -/")
+	l.p("/-- SubmitOrder: order.ChannelType value ↦ auctioneerrpc.OrderChannelType value (switch in SubmitOrder or in a helper it calls) -/")
 	l.p("def submitChannelType : List (Nat × Nat) := %s", digLeanPairs(ctPairs))
-	l.p("def submitChannelTypeDefault : List String := %s", leanStrList(ctDefault))
-	l.p("/-- SubmitOrder: order.AuctionType value ↦ auctioneerrpc.AuctionType value (no default: zero value) -/")
+	l.p("def submitChannelTypeDefaultIsError : Bool := %v", ctDefErr)
+	l.p("/-- SubmitOrder: order.AuctionType value ↦ auctioneerrpc.AuctionType value -/")
 	l.p("def submitAuctionType : List (Nat × Nat) := %s", digLeanPairs(atPairs))
-	l.p("def submitAuctionTypeDefault : List String := %s", leanStrList(atDefault))
+	l.p("def submitAuctionTypeDefaultIsError : Bool := %v", atDefErr)
 	l.p("/-- MarshallNodeTier: order.NodeTier value ↦ auctioneerrpc.NodeTier value -/")
 	l.p("def marshallNodeTier : List (Nat × Nat) := %s", digLeanPairs(ntPairs))
-	l.p("def marshallNodeTierDefault : List String := %s", leanStrList(ntDefault))
+	l.p("def marshallNodeTierDefaultIsError : Bool := %v", ntDefErr)
 	l.p("/-- ParseRPCServerOrder: auctioneerrpc.OrderChannelType value ↦ order.ChannelType value -/")
 	l.p("def parseChannelType : List (Nat × Nat) := %s", digLeanPairs(pctPairs))
 	l.p("def parseChannelTypeDefault : List String := %s", leanStrList(pctDefault))
